@@ -14,3 +14,7 @@ import TssVerif.Props.C11
 import TssVerif.Props.C07
 import TssVerif.Props.C08
 import TssVerif.Props.C09
+import TssVerif.Props.C01
+import TssVerif.Props.C02
+import TssVerif.Props.C03
+import TssVerif.Props.C04
